@@ -20,6 +20,16 @@ type summary struct {
 	noalias      [][2]string
 	fragmented   bool // contains a loop: emitted as fragments, cannot be called
 	text         string
+	frag         *fragInfo // fragmented: what the glue translator needs (see gfrag.go)
+}
+
+// fragInfo describes the fragments of a function with the loop shape of
+// loops.go: state variables at the head of the outer loop, number of inner
+// loops, and for every fragment the read-only variables it takes after the state.
+type fragInfo struct {
+	stateNames, stateTypes []string
+	inner                  int
+	ro                     map[string][]param // fragment name -> read-only parameters
 }
 
 func (s *summary) assumesDistinct(a, b string) bool {
